@@ -36,6 +36,9 @@ Lemma putplog_returns_stored_shape_of_invalid_event : c02_putplog_clears_invalid
 Proof. reflexivity. Qed.
 Lemma reencoding_keeps_original_name : c02_reencode_orig_name = true.
 Proof. reflexivity. Qed.
+(* PutPlog, after encoding, drops the emptied-field marks of the argument rows (75b678c2b) *)
+Lemma putplog_drops_argument_emptied_marks : c02_putplog_drops_arg_nils = true.
+Proof. reflexivity. Qed.
 (* the system-field mask of a row carries "sys.IsActive was assigned" (bit 16, no payload; 35e511a40):
    written by storeRowSysFields and restored by loadRowSysFields *)
 Lemma mask_carries_the_activation_mark : c02_mask_carries_actmod = true /\ c02_sfm_actmod = 16.
@@ -227,16 +230,29 @@ Theorem decode_encode :
 Proof. exact decode_encode_proved. Qed.
 
 (* Headline: an appended event reads back as the object PutPlog returned (and caches), for every
-   event shape incl. invalid events with whatever the builder left in their arguments; remaining
-   exclusion: error texts above 65535 bytes (C02-F6). *)
+   event shape incl. invalid events with whatever the builder left in their arguments and argument
+   fields put empty; remaining exclusion: error texts above 65535 bytes (C02-F6). *)
 Theorem appended_event_reads_back :
   forall s e, wf_event s e -> short_texts e ->
   decode s (enc_event e) = Some (returned_form e).
-Proof. exact (fun s e => returned_object_reads_back_proved c02_putplog_clears_invalid s e putplog_returns_stored_shape_of_invalid_event). Qed.
+Proof. exact (fun s e => returned_object_reads_back_proved c02_putplog_clears_invalid c02_putplog_drops_arg_nils s e putplog_returns_stored_shape_of_invalid_event putplog_drops_argument_emptied_marks). Qed.
 
-(* A valid event reads back exactly ... *)
+(* The object PutPlog returns lists the same specified (emptied) argument fields as the stored form
+   of the event - for every event, no hypothesis (C02-F8, fixed by 75b678c2b) ... *)
+Theorem returned_object_lists_the_stored_fields :
+  forall e, e_arg (returned_form e) = e_arg (stored_form e) /\ e_unl (returned_form e) = e_unl (stored_form e).
+Proof. exact (fun e => returned_lists_stored_fields_proved c02_putplog_clears_invalid c02_putplog_drops_arg_nils e putplog_returns_stored_shape_of_invalid_event putplog_drops_argument_emptied_marks). Qed.
+
+(* ... regression record: before that (drops = false) the returned object kept marks the stored form
+   does not have *)
+Theorem returned_object_kept_emptied_marks_refuted :
+  exists e, wf_event sch_any e /\ stored_valid e = true /\ e_arg (returned_form_with true false e) <> e_arg (stored_form e).
+Proof. exact returned_keeps_arg_nils_refuted_proved. Qed.
+
+(* A valid event reads back exactly, up to the emptied-field marks of its argument rows, which are
+   not stored ... *)
 Theorem valid_event_reads_back_exactly :
-  forall s e, wf_event s e -> stored_valid e = true -> decode s (enc_event e) = Some e.
+  forall s e, wf_event s e -> stored_valid e = true -> decode s (enc_event e) = Some (drop_arg_nils e).
 Proof. exact valid_event_roundtrip_proved. Qed.
 
 (* ... in particular ICUDRow.IsActivated / IsDeactivated of the update rows of the event read back
@@ -253,7 +269,7 @@ Proof. exact activation_flags_read_back_proved. Qed.
    with its mark cleared - rows written by the old code stay readable, and under the old writer an
    update that (de)activates a record read back as a plain update. *)
 Theorem activation_flags_lost_refuted :
-  (forall s v r rest, v <> 0 -> wf_row s r -> dec_row s v (enc_row_with mask_of_old r ++ rest) = Some (clear_row r, rest))
+  (forall s v r rest, v <> 0 -> wf_row s r -> dec_row s v (enc_row_with mask_of_old r ++ rest) = Some (clear_row (drop_nils_row r), rest))
   /\ exists r, wf_row sch_any r /\ activated (mkCud r []) || deactivated (mkCud r []) = true
                /\ activated (mkCud (clear_row r) []) || deactivated (mkCud (clear_row r) []) = false.
 Proof. exact activation_mark_lost_with_old_mask_proved. Qed.
@@ -269,16 +285,16 @@ Proof. exact (fun s e => reencode_decoded_proved c02_reencode_orig_name s e reen
    builder left them - the object PutPlog returned before c96e94a78 (returned_form_with false e = e;
    C02-F4, fixed). *)
 Theorem codec_roundtrip_error_arguments_refuted :
-  exists s e, wf_event s e /\ decode s (enc_event e) <> Some (returned_form_with false e).
+  exists s e, wf_event s e /\ decode s (enc_event e) <> Some (returned_form_with false false e).
 Proof. exact error_args_refuted_proved. Qed.
 
 Theorem codec_roundtrip_long_error_text_refuted :
   exists s e, wf_event s e /\ e_arg e = null_obj /\ e_creates e = [] /\ decode s (enc_event e) <> Some e.
 Proof. exact long_error_refuted_proved. Qed.
 
-(* the hypothesis is exactly what excludes the two witnesses *)
+(* the hypotheses are exactly what excludes the witnesses (the third: argument fields put empty) *)
 Theorem codec_roundtrip_partial :
-  forall s e, wf_event s e -> bare_error e -> decode s (enc_event e) = Some e.
+  forall s e, wf_event s e -> bare_error e -> no_arg_nils e -> decode s (enc_event e) = Some e.
 Proof. exact codec_roundtrip_partial_proved. Qed.
 
 (* Regression record (C02-F5, fixed by 796fe6f32): writing the event's own name when re-encoding
@@ -348,11 +364,11 @@ Proof. vm_compute. repeat split. Qed.
 
 Definition ex_event : event :=
   mkEvent 300 3 4096 77 12 1000 true 9 2000 true [] [] []
-    (Obj (mkRow 301 200001 0 0 true [1; 2; 3] false)
-         [Obj (mkRow 302 200002 200001 64 true [4] false) [Obj (mkRow 303 200003 200002 65 false [] true) []]; Obj (mkRow 302 200004 200001 64 true [] false) []])
-    (Obj (mkRow 304 0 0 0 true [42] false) [])
-    [mkCud (mkRow 305 200005 0 0 true [7; 7] true) [2; 3]]
-    [mkCud (mkRow 305 200009 0 0 false [] true) [1]; mkCud (mkRow 305 200010 0 0 true [] true) []].
+    (Obj (mkRow 301 200001 0 0 true [1; 2; 3] false [])
+         [Obj (mkRow 302 200002 200001 64 true [4] false []) [Obj (mkRow 303 200003 200002 65 false [] true []) []]; Obj (mkRow 302 200004 200001 64 true [] false []) []])
+    (Obj (mkRow 304 0 0 0 true [42] false []) [])
+    [mkCud (mkRow 305 200005 0 0 true [7; 7] true []) [2; 3]]
+    [mkCud (mkRow 305 200009 0 0 false [] true []) [1]; mkCud (mkRow 305 200010 0 0 true [] true []) []].
 Definition ex_invalid : event :=
   mkEvent 1 3 4097 77 13 1000 false 0 0 false [101; 114; 114] [116; 46; 99] [1; 2; 3] null_obj null_obj [] [].
 
@@ -386,6 +402,8 @@ Print Assumptions appended_event_reads_back.
 Print Assumptions reencoding_decoded_event_is_identity.
 Print Assumptions reencoding_with_own_name_refuted.
 Print Assumptions valid_event_reads_back_exactly.
+Print Assumptions returned_object_lists_the_stored_fields.
+Print Assumptions returned_object_kept_emptied_marks_refuted.
 Print Assumptions activation_flags_read_back.
 Print Assumptions activation_flags_lost_refuted.
 Print Assumptions error_event_with_unparsable_name_unreadable.
